@@ -26,7 +26,7 @@ type expectCase struct {
 }
 
 type expectWant struct {
-	T     string   `json:"t"` // num str bool nodes error
+	T     string   `json:"t"` // num str bool nodes error (BuildExpr or Exec fails) reject (BuildExpr fails)
 	Num   string   `json:"num,omitempty"`
 	Str   string   `json:"str,omitempty"`
 	Bool  bool     `json:"bool,omitempty"`
@@ -109,6 +109,15 @@ func checkExpect(c *expectCase) error {
 		return err
 	}
 	g, berr := safeBuild(c.Expr)
+	if c.Want.T == "reject" {
+		if _, ok := berr.(*panicError); ok {
+			return fmt.Errorf("BuildExpr(%q) panicked", c.Expr)
+		}
+		if berr == nil {
+			return fmt.Errorf("BuildExpr(%q) accepted a string that is not an XPath 1.0 expression", c.Expr)
+		}
+		return nil
+	}
 	if berr != nil {
 		if c.Want.T == "error" {
 			return nil
